@@ -37,6 +37,36 @@ func c15types() []c15type {
 	num := func(t string, vals []string) c15type {
 		return c15type{t, t, func(r *core.Rng) string { return core.Pick(r, vals) }, func(s string, _ bool) (string, string) { return "n", s }}
 	}
+	all := c15baseTypes(num)
+	// a leafref has the values and the encoding of the leaf it points to (RFC 7950 §9.9, RFC 7951 §6.8): targets
+	// whose conversion needs the schema (the fixed leaves tgte / tgtu / tgtb of c15module)
+	for _, t := range all {
+		switch t.name {
+		case "enum":
+			all = append(all, c15type{"lr-enum", "leafref { path \"/tgte\"; }", t.gen, t.jv})
+		case "union":
+			all = append(all, c15type{"lr-union", "leafref { path \"/tgtu\"; }", t.gen, t.jv})
+		case "bits":
+			all = append(all, c15type{"lr-bits", "leafref { path \"/tgtb\"; }", t.gen, t.jv})
+		case "string":
+			all = append(all, c15type{"lr-string", "leafref { path \"/tgts\"; }", t.gen, t.jv})
+		case "identityref":
+			all = append(all, c15type{"lr-ident", "leafref { path \"/tgti\"; }", t.gen, t.jv})
+		}
+	}
+	return all
+}
+
+func c15typeNamed(ts []c15type, name string) c15type {
+	for _, t := range ts {
+		if t.name == name {
+			return t
+		}
+	}
+	panic("no type " + name)
+}
+
+func c15baseTypes(num func(t string, vals []string) c15type) []c15type {
 	return []c15type{
 		{"string", "string", func(r *core.Rng) string { return core.Pick(r, c15strings) }, func(s string, _ bool) (string, string) { return "s", s }},
 		num("int8", []string{"-128", "0", "127"}), num("int16", []string{"-32768", "7"}), num("int32", []string{"-2147483648", "0", "2147483647", "42"}),
@@ -186,6 +216,31 @@ func c15yang(sc *c15schema, kids []*gen.SNode, indent string) string {
 	return b.String()
 }
 
+// the first schema of every run: every type once as a leaf and once as a leaf-list, in one container
+func c15allTypesKids(sc *c15schema, ts []c15type) []*gen.SNode {
+	var kids []*gen.SNode
+	for i, t := range ts {
+		for _, list := range []bool{false, true} {
+			if list && t.name == "empty" {
+				continue
+			}
+			c15seq++
+			name := fmt.Sprintf("a%d", c15seq)
+			if list {
+				name = fmt.Sprintf("m%d", c15seq)
+			}
+			_ = i
+			sc.types[name], sc.mod[name] = t, "m"
+			if list {
+				sc.lists[name] = true
+			}
+			kids = append(kids, &gen.SNode{Name: name, Kind: "leaf", Type: t.yang})
+		}
+	}
+	sc.mod["every"] = "m"
+	return []*gen.SNode{{Name: "every", Kind: "cont", Kids: kids}}
+}
+
 func c15data(r *core.Rng, sc *c15schema, kids []*gen.SNode, density int) []*gen.DNode {
 	out := gen.EmptyBody(kids)
 	for i, s := range kids {
@@ -275,7 +330,7 @@ func c15expect(sc *c15schema, kids []*gen.SNode, body []*gen.DNode, enumAsIds, q
 				tk := []string{"a", fmt.Sprint(len(parts))}
 				// a union leaf-list is held as one typed list: the first member type that takes every element
 				allStr := false
-				if t.name == "union" {
+				if t.name == "union" || t.name == "lr-union" {
 					for _, p := range parts {
 						if k, _ := t.jv(p, enumAsIds); k == "s" {
 							allStr = true
@@ -402,6 +457,13 @@ func c15module(sc *c15schema, ts []c15type) (*meta.Module, string, error) {
 	sc.mod["gca"], sc.mod["gcm"], sc.mod["gcc"], sc.mod["gq"] = "g", "m", "m", "m"
 	sc.types["gl"], sc.types["gi"], sc.types["gx"], sc.types["ga"] = ts[0], c15gIdentType, ts[3], ts[0]
 	sc.types["gca"], sc.types["gcm"], sc.types["gq"] = ts[0], ts[0], ts[0]
+	// the leaves the leafref types point to: ordinary leaves of the schema
+	for n, tn := range map[string]string{"tgte": "enum", "tgtu": "union", "tgtb": "bits", "tgti": "identityref", "tgts": "string"} {
+		sc.types[n], sc.mod[n] = c15typeNamed(ts, tn), "m"
+	}
+	for _, n := range []string{"tgte", "tgtu", "tgtb", "tgti", "tgts"} {
+		sc.kids = append(sc.kids, &gen.SNode{Name: n, Kind: "leaf", Type: sc.types[n].yang})
+	}
 	sc.kids = append(sc.kids, gc)
 	y := "module m { namespace \"urn:m\"; prefix m; import g { prefix g; } revision 2020-01-01;\n identity idb; identity d1 { base idb; } identity d2 { base d1; } identity md { base g:gbase; }\n" +
 		c15yang(sc, sc.kids[:len(sc.kids)-1], "  ") + "  container gwrap { uses g:grp { augment gc/gch { case cm { leaf gcm { type string; } container gcc { leaf gq { type string; } } } } augment gc { leaf ga { type string; } } } }\n}\n"
@@ -476,6 +538,9 @@ func C15(c *core.Ctx) {
 		c15seq = 0
 		sc := &c15schema{types: map[string]c15type{}, lists: map[string]bool{}, mod: map[string]string{}}
 		sc.kids = c15genKids(r, sc, ts, 0, 2+r.Intn(4), "m")
+		if si == 0 {
+			sc.kids = c15allTypesKids(sc, ts)
+		}
 		m, y, err := c15module(sc, ts)
 		if err != nil {
 			c.Violation(core.Replay{Kind: "harness", Summary: "C15 module does not load: " + err.Error(), Input: y, NoInputFound: true})
